@@ -21,6 +21,10 @@ def run(tier, seed):
     r2, i2 = syntaxrun.items("stmt", depth=1 if tier == "quick" else 2)
     ck.add_tlc(r2)
     groups.append(("stmt", i2))
+    # left-nested operator chains are trees of the grammar too (BinOp(BinOp(a, op1, b), op2, c) prints as `a op1 b op2 c`)
+    r4, i4 = syntaxrun.items("chain", maxchain=3 if tier == "quick" else 5)
+    ck.add_tlc(r4)
+    groups.append(("chain", i4))
     progs, _ = refrun.gen_programs(seed + 21, 150 if tier == "quick" else 2000, 5, err_rate=0.3)
     r3, i3 = syntaxrun.items("prog", progs=progs)
     ck.add_tlc(r3)
